@@ -63,7 +63,7 @@ func (m *machine) allocSize(v value, what string) int {
 	if !t.IsConst() && m.allocMax > 0 {
 		// is a size beyond the bound feasible?
 		big := m.ctx.SLt(m.ctx.BV(uint64(m.allocMax), t.Width()), t)
-		if m.solver.Check(m.pc, big) != Unsat {
+		if m.chk( big) != Unsat {
 			m.violate("alloc", "AllocBound", fmt.Sprintf("allocation size can exceed %d at %s", m.allocMax, m.where()))
 		}
 	}
@@ -157,14 +157,47 @@ func (m *machine) storeWord(p wordPtrV, v *Term) {
 
 func (m *machine) loadSym(p symElemPtr) value {
 	n := len(p.arr)
-	var res *Term
-	for i := n - 1; i >= 0; i-- {
+	allConst := true
+	for i := 0; i < n; i++ {
 		e, ok := p.arr[i].(*Term)
 		if !ok {
 			// non-scalar elements: fall back to concretisation
 			idx := int(m.concretize(p.idx, "index"))
 			return copyVal(p.arr[idx])
 		}
+		if !e.IsConst() {
+			allConst = false
+		}
+	}
+	if allConst {
+		// constant table: one comparison per run of equal values
+		var res *Term
+		i := n - 1
+		for i >= 0 {
+			e := p.arr[i].(*Term)
+			j := i
+			for j > 0 && p.arr[j-1].(*Term) == e {
+				j--
+			}
+			// run [j..i] has value e
+			if res == nil {
+				res = e
+			} else {
+				res = m.ctx.Ite(m.ctx.ULe(p.idx, m.ctx.BV(uint64(i), 64)), e, res)
+			}
+			i = j - 1
+		}
+		return res
+	}
+	if n > 8 {
+		// symbolic content and a symbolic index: fork over the index instead of
+		// building nested selects
+		idx := int(m.concretize(p.idx, "index"))
+		return p.arr[idx]
+	}
+	var res *Term
+	for i := n - 1; i >= 0; i-- {
+		e := p.arr[i].(*Term)
 		if res == nil {
 			res = e
 		} else {
@@ -176,7 +209,7 @@ func (m *machine) loadSym(p symElemPtr) value {
 
 func (m *machine) storeSym(p symElemPtr, v value) {
 	t, ok := v.(*Term)
-	if !ok {
+	if !ok || len(p.arr) > 8 {
 		idx := int(m.concretize(p.idx, "index"))
 		p.arr[idx] = copyVal(v)
 		return
@@ -187,12 +220,19 @@ func (m *machine) storeSym(p symElemPtr, v value) {
 	}
 }
 
-func (m *machine) idx64(v value) *Term {
-	t := v.(*Term)
+func (m *machine) idx64(v value, typ types.Type) *Term {
+	var t *Term
+	switch x := v.(type) {
+	case *Term:
+		t = x
+	case uptrV:
+		t = x.t
+	}
 	if t.Width() < 64 {
-		// index operands are ints or smaller ints; sign does not matter once
-		// bounds are checked as unsigned on the sign-extended value
-		return m.ctx.SExt(t, 64)
+		if _, signed, _ := bvWidth(typ); signed {
+			return m.ctx.SExt(t, 64)
+		}
+		return m.ctx.ZExt(t, 64)
 	}
 	return t
 }
@@ -212,8 +252,8 @@ func idxStr(t *Term) string {
 	return "sym"
 }
 
-func (m *machine) indexAddr(x value, idxv value) value {
-	idx := m.idx64(idxv)
+func (m *machine) indexAddr(x value, idxv value, ityp types.Type) value {
+	idx := m.idx64(idxv, ityp)
 	var arr []value
 	switch x := x.(type) {
 	case []value:
@@ -243,8 +283,8 @@ func (m *machine) indexAddr(x value, idxv value) value {
 	return &arr[i]
 }
 
-func (m *machine) index(x value, idxv value) value {
-	idx := m.idx64(idxv)
+func (m *machine) index(x value, idxv value, ityp types.Type) value {
+	idx := m.idx64(idxv, ityp)
 	switch x := x.(type) {
 	case array:
 		m.boundsCheck(idx, len(x))
@@ -292,13 +332,13 @@ func (m *machine) slice(instr *ssa.Slice, x, lo, hi, max value) value {
 	// Go checks: 0 <= lo <= hi <= max <= cap
 	var lt, ht, mt *Term
 	if lo != nil {
-		lt = m.idx64(lo)
+		lt = m.idx64(lo, instr.Low.Type())
 	}
 	if hi != nil {
-		ht = m.idx64(hi)
+		ht = m.idx64(hi, instr.High.Type())
 	}
 	if max != nil {
-		mt = m.idx64(max)
+		mt = m.idx64(max, instr.Max.Type())
 	}
 	limit := capacity
 	if _, isStr := x.(strV); isStr {
@@ -429,7 +469,7 @@ func (m *machine) mapFind(mp *mapV, key value) int {
 func (m *machine) lookup(instr *ssa.Lookup, x, key value) value {
 	switch x := x.(type) {
 	case strV:
-		return m.index(x, key)
+		return m.index(x, key, instr.Index.Type())
 	case *mapV:
 		var vt types.Type
 		if x != nil {
